@@ -93,6 +93,7 @@ func Solve(o *Obligation, cfg *SolverCfg, idx int) {
 		return
 	}
 	candText := ""
+	stageProved := false
 	// Cheap sound stages first (dropping hypotheses and abstracting non-linear sub-terms by fresh
 	// constants both only weaken the hypotheses, so `unsat` is a valid discharge):
 	//   qf+nl : quantified hypotheses dropped, non-linear terms abstracted
@@ -188,7 +189,9 @@ func Solve(o *Obligation, cfg *SolverCfg, idx int) {
 				if !cfg.AllAgree {
 					return
 				}
-				o.Status = ""
+				// thorough tier: a proof by a sound weakening is a proof; the full query is still
+				// given to every solver, which get 15 seconds to contradict it
+				stageProved = true
 				break
 			}
 		}
@@ -300,6 +303,9 @@ func Solve(o *Obligation, cfg *SolverCfg, idx int) {
 	}
 	if cfg.AllAgree {
 		seen := map[string]string{}
+		if stageProved {
+			seen["unsat"] = "z3-new(stage) "
+		}
 		for _, r := range results {
 			if r.status == "sat" || r.status == "unsat" {
 				seen[r.status] += r.solver + " "
